@@ -11,6 +11,7 @@ import (
 	"fmt"
 	"os"
 	"path/filepath"
+	"regexp"
 	"strings"
 	"time"
 
@@ -137,6 +138,9 @@ type emsg struct {
 	acked  bool
 }
 
+// random temporary file names are scrubbed from the event log
+var hexNameRe = regexp.MustCompile(`[0-9a-f]{32,}`)
+
 // Run is the world function for C08.
 func Run(s *simrt.Sim, a *harness.Args, r *harness.Result) {
 	log.DefaultLogger.Out = log.NopOutput{}
@@ -178,6 +182,18 @@ func Run(s *simrt.Sim, a *harness.Args, r *harness.Result) {
 	simfs.Use(fs)
 	simfs.MkdirAll(spool, 0o755)
 	simfs.MkdirAll("/buf", 0o755)
+	// temporary buffer files have random names
+	simfs.CanonName = func(b string) string {
+		stem, ext := b, ""
+		if i := strings.Index(b, "."); i >= 0 {
+			stem, ext = b[:i], b[i:]
+		}
+		if len(stem) <= 2 || stem == "spool" || stem == "buf" {
+			return b
+		}
+		return s.ID("file", stem) + ext
+	}
+	defer func() { simfs.CanonName = nil }()
 	if readFault {
 		fs.FaultOps = map[string]bool{"read": true}
 		fs.FaultBudget = 1
@@ -290,7 +306,7 @@ func Run(s *simrt.Sim, a *harness.Args, r *harness.Result) {
 			body = fb
 		}
 		if err := d.Body(ctx, hdr, body); err != nil {
-			s.Logf("producer: %s Body failed: %v", m.id, err)
+			s.Logf("producer: %s Body failed: %s", m.id, hexNameRe.ReplaceAllString(err.Error(), "*"))
 			d.Abort(ctx)
 			return
 		}
